@@ -68,6 +68,8 @@ def run(ctx):
     from . import c17
     c17._api(ctx, ctx.model, rule='C01.D7', only=('zincparser', 'zincdumper'))
     c17._timezone_name(ctx, ctx.model, rule='C01.D7')
+    from . import c07
+    c07.writer_memo(ctx, 'C01.D7', 'zincdumper')
     # the empty display string of a reference is a display string (Ref.__init__, hs_ref action)
     from . import _ref
     _ref.ref_init(ctx, 'C01.D2')
